@@ -31,7 +31,32 @@ import Mathlib.Tactic.Linarith
   * `bsrEq_iff`, `bsrEq_sound`   accepted ⇔ same qubit and the operators `rot` are entrywise close *including phase*
   * `bsrEq_complete_exact`, `bsrEq_refl`, `bsrEq_symm_exact`, `bsrEq_ne_qubit`
   * `rot_X_two_reps` + example: `X` as (x, π, π/2) and as (−x, π, −π/2) are equal for `bsrEq`
-  (continued below as the file grows)
+  Re-indexing, local matrix of one gate (generic in `α` unless stated)
+  * `indexOf?_eq`, `Gate.pos idx g` (operands ↦ positions in `idx`), `reindexGate_eq`: re-indexing succeeds iff every
+    operand is listed and then yields `g.pos idx`, else `ValueError`;  `Gate.pos_operands/_inReg/_dimOk`
+  * `localMatrix_single`, `localMatrix_single_ok_iff` (exists iff operands listed ∧ `dimOk`),
+    `localMatrix_single_error` (else `ValueError`), `localMatrix_single_spec` (ℝ): it is `denote k (g.pos idx)`
+  * `mem_dedup`, `dedup_nodup`, `dedup_append_perm`
+  Order independence (C17)
+  * `ketPerm idx idx'`      the bit permutation `π` of ket indices; `ketPerm_lt`, `ketPerm_testBit`, `ketPerm_inj`,
+                            `ketPerm_inv` (bijection of `[0, 2^k)`), `agreeOff_ketPerm`, `subIdx_ketPerm`
+  * `denote_pos_perm`       (any `α`) `denote k (g.pos idx') (π r) (π c) = denote k (g.pos idx) r c`
+  * `localMatrix_perm`      (ℝ) `A'[π r, π c] = A[r, c]`: the two local matrices are conjugate by the basis permutation
+  * `localMatrix_perm_ok`, `compareGatesWith_error_perm`   success / the error do not depend on the enumeration
+  * `PhaseEq.refl/.symm/.trans`, `PhaseEq.of_relabel`, `phaseEq_localMatrix_perm`
+  * `compareGatesWith_exact`, `compareGatesWith_perm_exact`   exact-level verdict `ok true` for every enumeration
+    REMARK (tolerance level): the entries compared are the same multiset of pairs for every enumeration, but the
+    pivot `l = argmaxAbs a` is the *first* entry of maximal modulus, so with ties (e.g. CNOT: all entries 0/1) the
+    phase estimate `z = a_l/b_l` may be taken at different entries for different enumerations; the verdicts can then
+    differ only for inputs within the tolerance band.  At the exact level (`PhaseEq`) there is no dependence.
+  Reflexivity / symmetry (C16)
+  * `compareGates_refl_exact`, `gateEq_refl_bsr`, `gateEq_refl_exact`, `localMatrix_ctrl_big` (a controlled gate has
+    the entry 1, so the modulus hypothesis holds for `atol ≤ 1`)
+  * `compareGates_symm_exact`  `PhaseEq` on the union ⇒ both `compare_gates(g1,g2)` and `compare_gates(g2,g1)` are `True`
+  * `gateEq_eq_compareGates`   `Gate.__eq__` is `compare_gates` unless both gates are plain rotations
+  * `equivPhase_reverse_bound` the tolerance version is asymmetric only through the `rtol·|z b|` term (and the pivot)
+  NOTE: `Gate.__eq__` on two plain rotations (`bsrEq`) compares operators *including* the global phase, every other
+  pair goes through `compare_gates`, which ignores it; both mirror the Python source.
 -/
 
 namespace OSq
@@ -399,6 +424,661 @@ example : bsrEq (1e-7 : ℝ) 0 (1, 0, 0) Real.pi (Real.pi / 2) 0 (-1, 0, 0) Real
 example : bsrEq (1e-7 : ℝ) 0 (1, 0, 0) Real.pi (Real.pi / 2) 1 (1, 0, 0) Real.pi (Real.pi / 2) = false :=
   bsrEq_ne_qubit _ 0 1 (by decide) _ _ _ _ _ _
 
+/-! ## Re-indexing and the local matrix of one gate -/
+
+section generic
+variable {α : Type} [Scalar α]
+
+theorem indexOf?_eq (idx : List Int) (q : Int) :
+    indexOf? idx q = if q ∈ idx then some (idx.idxOf q) else none := by
+  unfold indexOf?
+  have : List.findIdx (fun x => x == q) idx = idx.idxOf q := rfl
+  simp only [this, List.idxOf_lt_length_iff]
+
+/-- the gate with every operand replaced by its position in `idx` -/
+def Gate.pos (idx : List Int) : Gate α → Gate α
+  | .bsr q ax an ph => .bsr (idx.idxOf q : Nat) ax an ph
+  | .matrix m ops => .matrix m (ops.map fun q => ((idx.idxOf q : Nat) : Int))
+  | .ctrl c g => .ctrl (idx.idxOf c : Nat) (g.pos idx)
+
+theorem mapM_ok_of {β γ : Type} (f : β → Except Err γ) (g : β → γ) (ops : List β)
+    (h : ∀ q ∈ ops, f q = .ok (g q)) : ops.mapM f = .ok (ops.map g) := by
+  induction ops with
+  | nil => rfl
+  | cons q qs ih =>
+    rw [List.mapM_cons, ih (fun x hx => h x (List.mem_cons_of_mem _ hx)), h q List.mem_cons_self]
+    rfl
+
+theorem mapM_err_of {β γ : Type} (f : β → Except Err γ) (e : Err) (ops : List β)
+    (h0 : ∀ q ∈ ops, (∃ v, f q = .ok v) ∨ f q = .error e) (h : ∃ q ∈ ops, f q = .error e) :
+    ops.mapM f = .error e := by
+  induction ops with
+  | nil => obtain ⟨q, hq, _⟩ := h; cases hq
+  | cons q qs ih =>
+    rw [List.mapM_cons]
+    rcases h0 q List.mem_cons_self with ⟨v, hv⟩ | he
+    · rw [hv]
+      have : ∃ x ∈ qs, f x = .error e := by
+        obtain ⟨x, hx, hxe⟩ := h
+        rcases List.mem_cons.mp hx with rfl | hx
+        · rw [hv] at hxe; cases hxe
+        · exact ⟨x, hx, hxe⟩
+      simp only [bind, Except.bind]
+      rw [ih (fun x hx => h0 x (List.mem_cons_of_mem _ hx)) this]
+    · rw [he]; rfl
+
+omit [Scalar α] in
+/-- **re-indexing**: succeeds iff every operand is listed, and then yields the positions -/
+theorem reindexGate_eq (idx : List Int) (g : Gate α) :
+    reindexGate idx g = if ∀ q ∈ g.operands, q ∈ idx then .ok (g.pos idx) else .error .value := by
+  induction g with
+  | bsr q ax an ph =>
+    by_cases h : q ∈ idx
+    · rw [if_pos (by simpa [Gate.operands] using h)]
+      simp only [reindexGate, indexOf?_eq, if_pos h, Gate.pos]
+    · rw [if_neg (by simpa [Gate.operands] using h)]
+      simp only [reindexGate, indexOf?_eq, if_neg h]
+  | matrix m ops =>
+    by_cases h : ∀ q ∈ ops, q ∈ idx
+    · rw [if_pos (by simpa [Gate.operands] using h)]
+      simp only [reindexGate, Gate.pos]
+      rw [mapM_ok_of _ (fun q => ((idx.idxOf q : Nat) : Int)) ops
+        (fun q hq => by simp only [indexOf?_eq, if_pos (h q hq)])]
+      rfl
+    · rw [if_neg (by simpa [Gate.operands] using h)]
+      simp only [reindexGate]
+      rw [mapM_err_of _ .value ops ?_ ?_]
+      · rfl
+      · intro q _
+        by_cases hq : q ∈ idx
+        · left; exact ⟨((idx.idxOf q : Nat) : Int), by simp only [indexOf?_eq, if_pos hq]⟩
+        · right; simp only [indexOf?_eq, if_neg hq]
+      · have : ∃ q ∈ ops, q ∉ idx := by
+          by_contra hcon
+          apply h
+          intro q hq
+          by_contra hq'
+          exact hcon ⟨q, hq, hq'⟩
+        obtain ⟨q, hq, hq'⟩ := this
+        exact ⟨q, hq, by simp only [indexOf?_eq, if_neg hq']⟩
+  | ctrl c g ih =>
+    by_cases hc : c ∈ idx
+    · by_cases hg : ∀ q ∈ g.operands, q ∈ idx
+      · rw [if_pos (by simpa [Gate.operands] using ⟨hc, hg⟩)]
+        rw [if_pos hg] at ih
+        simp only [reindexGate, indexOf?_eq, if_pos hc, ih, Gate.pos, bind, Except.bind, pure, Except.pure]
+      · rw [if_neg (by simp only [Gate.operands, List.mem_cons, forall_eq_or_imp]; exact fun h => hg h.2)]
+        rw [if_neg hg] at ih
+        simp only [reindexGate, indexOf?_eq, if_pos hc, ih, bind, Except.bind]
+    · rw [if_neg (by simp only [Gate.operands, List.mem_cons, forall_eq_or_imp]; exact fun h => hc h.1)]
+      simp only [reindexGate, indexOf?_eq, if_neg hc]
+
+omit [Scalar α] in
+theorem Gate.pos_operands (idx : List Int) (g : Gate α) :
+    (g.pos idx).operands = g.operands.map (fun q => ((idx.idxOf q : Nat) : Int)) := by
+  induction g with
+  | bsr q ax an ph => rfl
+  | matrix m ops => rfl
+  | ctrl c g ih => simp only [Gate.pos, Gate.operands, List.map_cons, ih]
+
+omit [Scalar α] in
+/-- positions are always inside the register spanned by `idx` -/
+theorem Gate.pos_inReg (idx : List Int) (g : Gate α) (h : ∀ q ∈ g.operands, q ∈ idx) :
+    (g.pos idx).inReg idx.length := by
+  intro p hp
+  rw [Gate.pos_operands] at hp
+  obtain ⟨q, hq, rfl⟩ := List.mem_map.mp hp
+  have := List.idxOf_lt_length_of_mem (h q hq)
+  omega
+
+omit [Scalar α] in
+theorem Gate.pos_dimOk (idx : List Int) (g : Gate α) : (g.pos idx).dimOk ↔ g.dimOk := by
+  induction g with
+  | bsr q ax an ph => exact Iff.rfl
+  | matrix m ops => simp only [Gate.pos, Gate.dimOk, List.length_map]
+  | ctrl c g ih => exact ih
+
+/-- `localMatrix` of one gate: re-index, expand on `idx.length` qubits, multiply by the identity -/
+theorem localMatrix_single (idx : List Int) (g : Gate α) :
+    localMatrix idx [g] =
+      (do let h ← reindexGate idx g
+          let M ← expand idx.length h
+          pure (Mat.mul M (Mat.identity (2 ^ idx.length)))) := by
+  unfold localMatrix
+  cases hh : reindexGate idx g with
+  | error e => simp [List.mapM_cons, hh, bind, Except.bind]
+  | ok h =>
+    simp only [List.mapM_cons, List.mapM_nil, hh, bind, Except.bind, pure, Except.pure, List.map_cons,
+      List.map_nil]
+    cases hM : expand idx.length h with
+    | error e => simp [circuitMatrix, List.foldlM, hM, bind, Except.bind]
+    | ok M => simp [circuitMatrix, List.foldlM, hM, bind, Except.bind, pure, Except.pure]
+
+/-- a single-gate local matrix exists iff the gate's operands are all listed and its matrix nodes fit -/
+theorem localMatrix_single_ok_iff (idx : List Int) (g : Gate α) :
+    (∃ A, localMatrix idx [g] = .ok A) ↔ (∀ q ∈ g.operands, q ∈ idx) ∧ g.dimOk := by
+  rw [localMatrix_single, reindexGate_eq]
+  constructor
+  · rintro ⟨A, hA⟩
+    by_cases h : ∀ q ∈ g.operands, q ∈ idx
+    · rw [if_pos h] at hA
+      simp only [bind, Except.bind] at hA
+      cases hM : expand idx.length (g.pos idx) with
+      | error e => rw [hM] at hA; cases hA
+      | ok M => exact ⟨h, (Gate.pos_dimOk idx g).mp ((expand_ok_iff _).mp ⟨M, hM⟩).2⟩
+    · rw [if_neg h] at hA; cases hA
+  · rintro ⟨h, hd⟩
+    rw [if_pos h]
+    obtain ⟨M, hM⟩ := (expand_ok_iff (n := idx.length) (g.pos idx)).mpr
+      ⟨Gate.pos_inReg idx g h, (Gate.pos_dimOk idx g).mpr hd⟩
+    exact ⟨Mat.mul M (Mat.identity (2 ^ idx.length)), by simp only [bind, Except.bind, hM, pure, Except.pure]⟩
+
+/-- at `ℝ`, right multiplication by the model identity changes no entry -/
+theorem Mat.mul_identity_get (M : Mat ℝ) {N : Nat} (hM : M.n = N) {r c : Nat} (hr : r < N) (hc : c < N) :
+    (Mat.mul M (Mat.identity N)).get r c = M.get r c := by
+  apply Cx.toC_injective
+  have := congrFun (congrFun (Mat.toMatrixOn_mul' M (Mat.identity N) hM) ⟨r, hr⟩) ⟨c, hc⟩
+  rw [Mat.toMatrixOn_identity, mul_one] at this
+  exact this
+
+/-- **the local matrix of one gate is the textbook operator of the re-indexed gate** (at `ℝ`) -/
+theorem localMatrix_single_spec (idx : List Int) (g : Gate ℝ) (A : Mat ℝ) (hA : localMatrix idx [g] = .ok A) :
+    IsMat idx.length A (denote idx.length (g.pos idx)) := by
+  have hok := (localMatrix_single_ok_iff idx g).mp ⟨A, hA⟩
+  rw [localMatrix_single, reindexGate_eq, if_pos hok.1] at hA
+  simp only [bind, Except.bind] at hA
+  cases hM : expand idx.length (g.pos idx) with
+  | error e => rw [hM] at hA; cases hA
+  | ok M =>
+    rw [hM] at hA
+    simp only [pure, Except.pure, Except.ok.injEq] at hA
+    subst hA
+    obtain ⟨h1, h2, h3⟩ := expand_spec hM
+    refine ⟨by rw [Mat.mul_n, h1], by rw [Mat.mul_size, h1], ?_⟩
+    intro r c hr hc
+    rw [Mat.mul_identity_get M h1 hr hc, h3 r c hr hc]
+
+/-! ## `dedup` -/
+
+theorem mem_dedup (l : List Int) (q : Int) : q ∈ dedup l ↔ q ∈ l := by
+  induction l with
+  | nil => simp [dedup]
+  | cons x xs ih =>
+    simp only [dedup, List.mem_cons, List.mem_filter, ih, bne_iff_ne, ne_eq]
+    constructor
+    · rintro (h | ⟨h, -⟩)
+      · exact Or.inl h
+      · exact Or.inr h
+    · rintro (h | h)
+      · exact Or.inl h
+      · by_cases hq : q = x
+        · exact Or.inl hq
+        · exact Or.inr ⟨h, hq⟩
+
+theorem dedup_nodup (l : List Int) : (dedup l).Nodup := by
+  induction l with
+  | nil => simp [dedup]
+  | cons x xs ih =>
+    simp only [dedup, List.nodup_cons, List.mem_filter, bne_self_eq_false, Bool.false_eq_true, and_false,
+      not_false_eq_true, true_and]
+    exact ih.filter _
+
+/-- the two unions `compare_gates` may enumerate are permutations of each other -/
+theorem dedup_append_perm (l1 l2 : List Int) : (dedup (l1 ++ l2)).Perm (dedup (l2 ++ l1)) := by
+  rw [List.perm_ext_iff_of_nodup (dedup_nodup _) (dedup_nodup _)]
+  intro a
+  simp only [mem_dedup, List.mem_append]
+  exact Or.comm
+
+/-! ## Order independence (C17): bit permutation of the ket index -/
+
+/-- the bit permutation of ket indices induced by passing from the enumeration `idx` to `idx'`:
+    bit `idx'.idxOf q` of the result is bit `idx.idxOf q` of the argument -/
+def ketPerm (idx idx' : List Int) (x : Nat) : Nat := reducedKet x (idx'.map fun q => idx.idxOf q)
+
+theorem ketPerm_lt (idx idx' : List Int) (x : Nat) : ketPerm idx idx' x < 2 ^ idx'.length := by
+  have := reducedKet_lt x (idx'.map fun q => idx.idxOf q)
+  rwa [List.length_map] at this
+
+theorem ketPerm_testBit (idx idx' : List Int) (x : Nat) {q : Int} (hq : q ∈ idx') :
+    (ketPerm idx idx' x).testBit (idx'.idxOf q) = x.testBit (idx.idxOf q) := by
+  have hlt : idx'.idxOf q < idx'.length := List.idxOf_lt_length_of_mem hq
+  unfold ketPerm
+  rw [reducedKet_spec, dif_pos (by rwa [List.length_map])]
+  simp only [List.getElem_map, List.getElem_idxOf hlt]
+
+section perm
+variable (idx idx' : List Int) (hnd : idx.Nodup) (hnd' : idx'.Nodup) (hmem : ∀ q, q ∈ idx ↔ q ∈ idx')
+include hnd hmem
+
+theorem ketPerm_inj {r c : Nat} (hr : r < 2 ^ idx.length) (hc : c < 2 ^ idx.length)
+    (h : ketPerm idx idx' r = ketPerm idx idx' c) : r = c := by
+  apply Nat.eq_of_testBit_eq
+  intro i
+  by_cases hi : i < idx.length
+  · have hq : idx[i] ∈ idx' := (hmem _).mp (List.getElem_mem hi)
+    have h1 := ketPerm_testBit idx idx' r hq
+    have h2 := ketPerm_testBit idx idx' c hq
+    rw [hnd.idxOf_getElem i hi] at h1 h2
+    rw [← h1, ← h2, h]
+  · rw [testBit_ge hr (by omega), testBit_ge hc (by omega)]
+
+omit hnd in
+theorem ketPerm_bitOf (x : Nat) {q : Int} (hq : q ∈ idx) :
+    bitOf (ketPerm idx idx' x) (idx'.idxOf q) = bitOf x (idx.idxOf q) := by
+  unfold bitOf
+  rw [ketPerm_testBit idx idx' x ((hmem q).mp hq)]
+
+include hnd' in
+/-- the agreement test is transported by the bit permutation -/
+theorem agreeOff_ketPerm (qs : List Int) (hqs : ∀ q ∈ qs, q ∈ idx) (r c : Nat) :
+    agreeOff idx'.length (qs.map fun q => idx'.idxOf q) (ketPerm idx idx' r) (ketPerm idx idx' c)
+      ↔ agreeOff idx.length (qs.map fun q => idx.idxOf q) r c := by
+  constructor
+  · intro H i hi hni
+    have hq0 : idx[i] ∈ idx := List.getElem_mem hi
+    have hq0' : idx[i] ∈ idx' := (hmem _).mp hq0
+    have hj : idx'.idxOf idx[i] < idx'.length := List.idxOf_lt_length_of_mem hq0'
+    have hnj : idx'.idxOf idx[i] ∉ qs.map fun q => idx'.idxOf q := by
+      intro hm
+      obtain ⟨q1, hq1, e⟩ := List.mem_map.mp hm
+      have : q1 = idx[i] := (List.idxOf_inj ((hmem _).mp (hqs q1 hq1))).mp e
+      apply hni
+      rw [List.mem_map]
+      exact ⟨q1, hq1, by rw [this, hnd.idxOf_getElem i hi]⟩
+    have := H _ hj hnj
+    rw [ketPerm_testBit idx idx' r hq0', ketPerm_testBit idx idx' c hq0', hnd.idxOf_getElem i hi] at this
+    exact this
+  · intro H j hj hnj
+    have hq0' : idx'[j] ∈ idx' := List.getElem_mem hj
+    have hq0 : idx'[j] ∈ idx := (hmem _).mpr hq0'
+    have hi : idx.idxOf idx'[j] < idx.length := List.idxOf_lt_length_of_mem hq0
+    have hni : idx.idxOf idx'[j] ∉ qs.map fun q => idx.idxOf q := by
+      intro hm
+      obtain ⟨q1, hq1, e⟩ := List.mem_map.mp hm
+      have : q1 = idx'[j] := (List.idxOf_inj (hqs q1 hq1)).mp e
+      apply hnj
+      rw [List.mem_map]
+      exact ⟨q1, hq1, by rw [this, hnd'.idxOf_getElem j hj]⟩
+    have := H _ hi hni
+    have h1 := ketPerm_testBit idx idx' r hq0'
+    have h2 := ketPerm_testBit idx idx' c hq0'
+    rw [hnd'.idxOf_getElem j hj] at h1 h2
+    rw [h1, h2, this]
+
+omit hnd in
+theorem subIdx_ketPerm (qs : List Int) (hqs : ∀ q ∈ qs, q ∈ idx) (x : Nat) :
+    subIdx (ketPerm idx idx' x) (qs.map fun q => idx'.idxOf q) = subIdx x (qs.map fun q => idx.idxOf q) := by
+  induction qs with
+  | nil => rfl
+  | cons q qs ih =>
+    simp only [List.map_cons, subIdx, List.length_map]
+    rw [ketPerm_bitOf idx idx' hmem x (hqs q List.mem_cons_self),
+      ih (fun y hy => hqs y (List.mem_cons_of_mem _ hy))]
+
+end perm
+
+theorem map_toNat_pos (idx : List Int) (ops : List Int) :
+    (ops.map fun q => ((idx.idxOf q : Nat) : Int)).map Int.toNat = ops.map fun q => idx.idxOf q := by
+  rw [List.map_map]
+  apply List.map_congr_left
+  intro q _
+  simp
+
+/-- **the textbook operator of the re-indexed gate is transported by the bit permutation**: entry
+    `(π r, π c)` for the enumeration `idx'` is entry `(r, c)` for the enumeration `idx`. -/
+theorem denote_pos_perm (idx idx' : List Int) (hnd : idx.Nodup) (hnd' : idx'.Nodup)
+    (hmem : ∀ q, q ∈ idx ↔ q ∈ idx') (g : Gate α)
+    (hg : ∀ q ∈ g.operands, q ∈ idx) {r c : Nat} (hr : r < 2 ^ idx.length) (hc : c < 2 ^ idx.length) :
+    denote idx'.length (g.pos idx') (ketPerm idx idx' r) (ketPerm idx idx' c)
+      = denote idx.length (g.pos idx) r c := by
+  induction g generalizing r c with
+  | bsr q ax an ph =>
+    have hq : q ∈ idx := hg q (by simp [Gate.operands])
+    simp only [Gate.pos, denote, embed1, Int.toNat_natCast]
+    have hag := agreeOff_ketPerm idx idx' hnd hnd' hmem [q] (by simpa using hq) r c
+    simp only [List.map_cons, List.map_nil] at hag
+    rw [ketPerm_bitOf idx idx' hmem r hq, ketPerm_bitOf idx idx' hmem c hq]
+    by_cases h : agreeOff idx.length [idx.idxOf q] r c
+    · rw [if_pos h, if_pos (hag.mpr h)]
+    · rw [if_neg h, if_neg (fun h' => h (hag.mp h'))]
+  | matrix m ops =>
+    have hops : ∀ q ∈ ops, q ∈ idx := hg
+    simp only [Gate.pos, denote, embedM, map_toNat_pos]
+    have hag := agreeOff_ketPerm idx idx' hnd hnd' hmem ops hops r c
+    rw [subIdx_ketPerm idx idx' hmem ops hops r, subIdx_ketPerm idx idx' hmem ops hops c]
+    by_cases h : agreeOff idx.length (ops.map fun q => idx.idxOf q) r c
+    · rw [if_pos h, if_pos (hag.mpr h)]
+    · rw [if_neg h, if_neg (fun h' => h (hag.mp h'))]
+  | ctrl cq g ih =>
+    have hcq : cq ∈ idx := hg cq (by simp [Gate.operands])
+    have hg' : ∀ q ∈ g.operands, q ∈ idx := fun q hq => hg q (by simp [Gate.operands, hq])
+    simp only [Gate.pos, denote, ctrlOf, Int.toNat_natCast]
+    have hbit := ketPerm_testBit idx idx' c ((hmem cq).mp hcq)
+    by_cases hb : c.testBit (idx.idxOf cq) = true
+    · rw [if_pos hb, if_pos (by rw [hbit]; exact hb)]
+      exact ih hg' hr hc
+    · rw [if_neg hb, if_neg (by rw [hbit]; exact hb)]
+      unfold delta
+      by_cases hrc : r = c
+      · rw [if_pos hrc, if_pos (by rw [hrc])]
+      · rw [if_neg hrc, if_neg (fun h => hrc (ketPerm_inj idx idx' hnd hmem hr hc h))]
+
+end generic
+
+/-! ## `PhaseEq` is an equivalence relation -/
+
+theorem PhaseEq.refl (n : Nat) (a : Mat ℝ) : PhaseEq n a a :=
+  ⟨1, norm_one, fun _ _ _ _ => (one_mul _).symm⟩
+
+theorem PhaseEq.symm {n : Nat} {a b : Mat ℝ} (h : PhaseEq n a b) : PhaseEq n b a := by
+  obtain ⟨z, hz, H⟩ := h
+  have hz0 : z ≠ 0 := by
+    intro h0; rw [h0, norm_zero] at hz; exact zero_ne_one hz
+  refine ⟨z⁻¹, by rw [norm_inv, hz, inv_one], ?_⟩
+  intro i j hi hj
+  rw [H i j hi hj, ← mul_assoc, inv_mul_cancel₀ hz0, one_mul]
+
+theorem PhaseEq.trans {n : Nat} {a b c : Mat ℝ} (h1 : PhaseEq n a b) (h2 : PhaseEq n b c) : PhaseEq n a c := by
+  obtain ⟨z, hz, H⟩ := h1
+  obtain ⟨w, hw, K⟩ := h2
+  refine ⟨z * w, by rw [norm_mul, hz, hw, one_mul], ?_⟩
+  intro i j hi hj
+  rw [H i j hi hj, K i j hi hj, mul_assoc]
+
+/-- `PhaseEq` is invariant under a simultaneous re-labelling of the basis (conjugation by a permutation matrix) -/
+theorem PhaseEq.of_relabel {n n' : Nat} (π ρ : Nat → Nat) (hρ : ∀ i, i < n' → ρ i < n ∧ π (ρ i) = i)
+    {a b a' b' : Mat ℝ}
+    (ha : ∀ r c, r < n → c < n → a'.get (π r) (π c) = a.get r c)
+    (hb : ∀ r c, r < n → c < n → b'.get (π r) (π c) = b.get r c)
+    (h : PhaseEq n a b) : PhaseEq n' a' b' := by
+  obtain ⟨z, hz, H⟩ := h
+  refine ⟨z, hz, ?_⟩
+  intro i j hi hj
+  obtain ⟨hi1, hi2⟩ := hρ i hi
+  obtain ⟨hj1, hj2⟩ := hρ j hj
+  have e1 := ha _ _ hi1 hj1
+  have e2 := hb _ _ hi1 hj1
+  rw [hi2, hj2] at e1 e2
+  rw [e1, e2]
+  exact H _ _ hi1 hj1
+
+/-! ## The bit permutation is a bijection of `[0, 2^k)` -/
+
+theorem ketPerm_inv (idx idx' : List Int) (hnd' : idx'.Nodup) (hmem : ∀ q, q ∈ idx ↔ q ∈ idx') {x : Nat}
+    (hx : x < 2 ^ idx'.length) : ketPerm idx idx' (ketPerm idx' idx x) = x := by
+  apply Nat.eq_of_testBit_eq
+  intro j
+  by_cases hj : j < idx'.length
+  · have hq' : idx'[j] ∈ idx' := List.getElem_mem hj
+    have hq : idx'[j] ∈ idx := (hmem _).mpr hq'
+    have h1 := ketPerm_testBit idx idx' (ketPerm idx' idx x) hq'
+    have h2 := ketPerm_testBit idx' idx x hq
+    rw [hnd'.idxOf_getElem j hj] at h1 h2
+    rw [h1, h2]
+  · rw [testBit_ge (ketPerm_lt idx idx' _) (by omega), testBit_ge hx (by omega)]
+
+/-! ## Order independence of the local matrix and of gate comparison (C17) -/
+
+/-- **Order independence, matrix level.**  For two enumerations `idx`, `idx'` of the same set of qubits the
+    local matrices of a gate are conjugate by the bit permutation `π = ketPerm idx idx'` of the ket index:
+    `A'[π r, π c] = A[r, c]`, i.e. `A' = P · A · P⁻¹`. -/
+theorem localMatrix_perm (idx idx' : List Int) (hnd : idx.Nodup) (hperm : idx.Perm idx') (g : Gate ℝ)
+    {A A' : Mat ℝ} (hA : localMatrix idx [g] = .ok A) (hA' : localMatrix idx' [g] = .ok A')
+    {r c : Nat} (hr : r < 2 ^ idx.length) (hc : c < 2 ^ idx.length) :
+    A'.get (ketPerm idx idx' r) (ketPerm idx idx' c) = A.get r c := by
+  have hnd' : idx'.Nodup := hperm.nodup_iff.mp hnd
+  have hmem : ∀ q, q ∈ idx ↔ q ∈ idx' := fun q => hperm.mem_iff
+  have hg := ((localMatrix_single_ok_iff idx g).mp ⟨A, hA⟩).1
+  rw [(localMatrix_single_spec idx' g A' hA').2.2 _ _ (ketPerm_lt idx idx' r) (ketPerm_lt idx idx' c),
+    (localMatrix_single_spec idx g A hA).2.2 r c hr hc]
+  exact denote_pos_perm idx idx' hnd hnd' hmem g hg hr hc
+
+/-- success of `localMatrix` on one gate does not depend on the enumeration -/
+theorem localMatrix_perm_ok (idx idx' : List Int) (hperm : idx.Perm idx') (g : Gate ℝ)
+    (h : ∃ A, localMatrix idx [g] = .ok A) : ∃ A', localMatrix idx' [g] = .ok A' := by
+  rw [localMatrix_single_ok_iff] at h ⊢
+  exact ⟨fun q hq => hperm.mem_iff.mp (h.1 q hq), h.2⟩
+
+/-- **`PhaseEq` of the two local matrices does not depend on the enumeration.** -/
+theorem phaseEq_localMatrix_perm (idx idx' : List Int) (hnd : idx.Nodup) (hperm : idx.Perm idx')
+    (g1 g2 : Gate ℝ) {a b a' b' : Mat ℝ}
+    (ha : localMatrix idx [g1] = .ok a) (hb : localMatrix idx [g2] = .ok b)
+    (ha' : localMatrix idx' [g1] = .ok a') (hb' : localMatrix idx' [g2] = .ok b')
+    (h : PhaseEq (2 ^ idx.length) a b) : PhaseEq (2 ^ idx'.length) a' b' := by
+  have hnd' : idx'.Nodup := hperm.nodup_iff.mp hnd
+  have hmem : ∀ q, q ∈ idx ↔ q ∈ idx' := fun q => hperm.mem_iff
+  refine PhaseEq.of_relabel (ketPerm idx idx') (ketPerm idx' idx) ?_
+    (fun r c hr hc => localMatrix_perm idx idx' hnd hperm g1 ha ha' hr hc)
+    (fun r c hr hc => localMatrix_perm idx idx' hnd hperm g2 hb hb' hr hc) h
+  intro i hi
+  exact ⟨ketPerm_lt idx' idx i, ketPerm_inv idx idx' hnd' hmem hi⟩
+
+theorem compareGatesWith_eq (atol : ℝ) (idx : List Int) (g1 g2 : Gate ℝ) {a b : Mat ℝ}
+    (ha : localMatrix idx [g1] = .ok a) (hb : localMatrix idx [g2] = .ok b) :
+    compareGatesWith atol idx g1 g2 = .ok (equivPhase atol a b) := by
+  simp only [compareGatesWith, ha, hb, bind, Except.bind, pure, Except.pure]
+
+theorem compareGates_eq_with (atol : ℝ) (g1 g2 : Gate ℝ) :
+    compareGates atol g1 g2 = compareGatesWith atol (dedup (g1.operands ++ g2.operands)) g1 g2 := rfl
+
+/-- exact-level acceptance for a given enumeration -/
+theorem compareGatesWith_exact (atol : ℝ) (hatol : 0 < atol) (idx : List Int) (g1 g2 : Gate ℝ) {a b : Mat ℝ}
+    (ha : localMatrix idx [g1] = .ok a) (hb : localMatrix idx [g2] = .ok b)
+    (hpe : PhaseEq (2 ^ idx.length) a b)
+    (hbig : ∃ i j, i < 2 ^ idx.length ∧ j < 2 ^ idx.length ∧ atol ≤ ‖(a.get i j).toC‖) :
+    compareGatesWith atol idx g1 g2 = .ok true := by
+  rw [compareGatesWith_eq atol idx g1 g2 ha hb,
+    equivPhase_complete_exact' atol hatol (2 ^ idx.length) (Nat.two_pow_pos _) a b
+      (localMatrix_dim ha).1 (localMatrix_dim hb).1 hbig hpe]
+
+/-- **Order independence of `compare_gates` at the exact level (C17).**  If for one enumeration `idx` of the
+    union of the operands the two local matrices are equal up to a global phase (and `a` has an entry of
+    modulus `≥ atol`), then `compareGatesWith` answers `ok true` for `idx` *and for every other enumeration
+    `idx'` of the same qubits*. -/
+theorem compareGatesWith_perm_exact (atol : ℝ) (hatol : 0 < atol) (idx idx' : List Int) (hnd : idx.Nodup)
+    (hperm : idx.Perm idx') (g1 g2 : Gate ℝ) {a b : Mat ℝ}
+    (ha : localMatrix idx [g1] = .ok a) (hb : localMatrix idx [g2] = .ok b)
+    (hpe : PhaseEq (2 ^ idx.length) a b)
+    (hbig : ∃ i j, i < 2 ^ idx.length ∧ j < 2 ^ idx.length ∧ atol ≤ ‖(a.get i j).toC‖) :
+    compareGatesWith atol idx g1 g2 = .ok true ∧ compareGatesWith atol idx' g1 g2 = .ok true := by
+  refine ⟨compareGatesWith_exact atol hatol idx g1 g2 ha hb hpe hbig, ?_⟩
+  obtain ⟨a', ha'⟩ := localMatrix_perm_ok idx idx' hperm g1 ⟨a, ha⟩
+  obtain ⟨b', hb'⟩ := localMatrix_perm_ok idx idx' hperm g2 ⟨b, hb⟩
+  apply compareGatesWith_exact atol hatol idx' g1 g2 ha' hb'
+    (phaseEq_localMatrix_perm idx idx' hnd hperm g1 g2 ha hb ha' hb' hpe)
+  obtain ⟨i, j, hi, hj, hle⟩ := hbig
+  refine ⟨ketPerm idx idx' i, ketPerm idx idx' j, ketPerm_lt _ _ _, ketPerm_lt _ _ _, ?_⟩
+  rw [localMatrix_perm idx idx' hnd hperm g1 ha ha' hi hj]
+  exact hle
+
+/-! ## Reflexivity and symmetry of `compare_gates` / `Gate.__eq__` at the exact level (C16) -/
+
+/-- **Reflexivity.**  A gate whose matrix nodes have the right size always has a local matrix on the union of
+    its own operands, and if that matrix has largest-entry modulus `≥ atol`, `compare_gates(g, g)` is `True`. -/
+theorem compareGates_refl_exact (atol : ℝ) (hatol : 0 < atol) (g : Gate ℝ) (hd : g.dimOk) :
+    ∃ A, localMatrix (dedup (g.operands ++ g.operands)) [g] = .ok A ∧
+      (atol ≤ Cx.abs (A.d.getD (argmaxAbs A) Cx.zero) → compareGates atol g g = .ok true) := by
+  obtain ⟨A, hA⟩ := (localMatrix_single_ok_iff (dedup (g.operands ++ g.operands)) g).mpr
+    ⟨fun q hq => (mem_dedup _ q).mpr (List.mem_append_left _ hq), hd⟩
+  refine ⟨A, hA, ?_⟩
+  intro hbig
+  rw [compareGates_eq_with, compareGatesWith_eq atol _ g g hA hA,
+    equivPhase_complete_exact atol hatol _ (Nat.two_pow_pos _) A A (localMatrix_dim hA).1
+      (localMatrix_dim hA).1 hbig (PhaseEq.refl _ A)]
+
+/-- `Gate.__eq__` on two plain rotations is `bsrEq`: reflexive for every non-negative tolerance -/
+theorem gateEq_refl_bsr (atol : ℝ) (hatol : 0 ≤ atol) (q : Int) (ax : Vec3 ℝ) (an ph : ℝ) :
+    gateEq atol (.bsr q ax an ph) (.bsr q ax an ph) = .ok true := by
+  simp only [gateEq, bsrEq_refl atol hatol q ax an ph]
+
+/-- `Gate.__eq__` dispatch: two plain rotations go through `bsrEq` (always reflexive), everything else through
+    `compare_gates`. -/
+theorem gateEq_refl_exact (atol : ℝ) (hatol : 0 < atol) (g : Gate ℝ) (hd : g.dimOk)
+    (hbig : ∀ A, localMatrix (dedup (g.operands ++ g.operands)) [g] = .ok A →
+      atol ≤ Cx.abs (A.d.getD (argmaxAbs A) Cx.zero)) :
+    gateEq atol g g = .ok true := by
+  obtain ⟨A, hA, himp⟩ := compareGates_refl_exact atol hatol g hd
+  cases g with
+  | bsr q ax an ph => exact gateEq_refl_bsr atol hatol.le q ax an ph
+  | matrix m ops => exact himp (hbig A hA)
+  | ctrl c g => exact himp (hbig A hA)
+
+/-- a controlled gate always has the entry `1` at `(0, 0)`, so the modulus hypothesis holds for `atol ≤ 1` -/
+theorem localMatrix_ctrl_big (atol : ℝ) (h1 : atol ≤ 1) (idx : List Int) (c : Int) (g : Gate ℝ) (A : Mat ℝ)
+    (hA : localMatrix idx [Gate.ctrl c g] = .ok A) :
+    atol ≤ Cx.abs (A.d.getD (argmaxAbs A) Cx.zero) := by
+  apply big_of_exists
+  have hspec := localMatrix_single_spec idx _ A hA
+  refine ⟨0, by rw [hspec.1]; exact Nat.mul_pos (Nat.two_pow_pos _) (Nat.two_pow_pos _), ?_⟩
+  have h00 := hspec.2.2 0 0 (Nat.two_pow_pos _) (Nat.two_pow_pos _)
+  have : A.flat 0 = (A.get 0 0).toC := by
+    rw [Mat.get_eq_flat A rfl]; simp
+  rw [this, h00]
+  simp only [Gate.pos, denote, ctrlOf, Nat.zero_testBit, Bool.false_eq_true, if_false, delta, if_true,
+    Cx.toC_one, norm_one]
+  exact h1
+
+/-- non-vacuity: a controlled rotation on qubits 5 and 9 equals itself, for every tolerance in `(0, 1]` -/
+example (atol : ℝ) (h0 : 0 < atol) (h1 : atol ≤ 1) (ax : Vec3 ℝ) (an ph : ℝ) :
+    gateEq atol (Gate.ctrl 5 (.bsr 9 ax an ph)) (Gate.ctrl 5 (.bsr 9 ax an ph)) = .ok true :=
+  gateEq_refl_exact atol h0 _ trivial (fun A hA => localMatrix_ctrl_big atol h1 _ _ _ A hA)
+
+example (ax : Vec3 ℝ) (an ph : ℝ) :
+    gateEq (1e-7 : ℝ) (Gate.bsr 3 ax an ph) (Gate.bsr 3 ax an ph) = .ok true :=
+  gateEq_refl_bsr _ (by norm_num) _ _ _ _
+
+/-- **Symmetry at the exact level.**  If the local matrices of `g1`, `g2` on the union enumerated as
+    `compare_gates(g1, g2)` does are equal up to a global phase (and `a` has an entry of modulus `≥ atol`),
+    then both `compare_gates(g1, g2)` and `compare_gates(g2, g1)` — which enumerates the union in the other
+    order — answer `True`.  (Uses order independence.) -/
+theorem compareGates_symm_exact (atol : ℝ) (hatol : 0 < atol) (g1 g2 : Gate ℝ) {a b : Mat ℝ}
+    (ha : localMatrix (dedup (g1.operands ++ g2.operands)) [g1] = .ok a)
+    (hb : localMatrix (dedup (g1.operands ++ g2.operands)) [g2] = .ok b)
+    (hpe : PhaseEq (2 ^ (dedup (g1.operands ++ g2.operands)).length) a b)
+    (hbig : ∃ i j, i < 2 ^ (dedup (g1.operands ++ g2.operands)).length ∧
+      j < 2 ^ (dedup (g1.operands ++ g2.operands)).length ∧ atol ≤ ‖(a.get i j).toC‖) :
+    compareGates atol g1 g2 = .ok true ∧ compareGates atol g2 g1 = .ok true := by
+  refine ⟨compareGatesWith_exact atol hatol _ g1 g2 ha hb hpe hbig, ?_⟩
+  rw [compareGates_eq_with]
+  refine (compareGatesWith_perm_exact atol hatol _ _ (dedup_nodup _) (dedup_append_perm _ _) g2 g1 hb ha
+    hpe.symm ?_).2
+  obtain ⟨i, j, hi, hj, hle⟩ := hbig
+  refine ⟨i, j, hi, hj, ?_⟩
+  obtain ⟨z, hz, H⟩ := hpe
+  rw [H i j hi hj, norm_mul, hz, one_mul] at hle
+  exact hle
+
+/-- when at most one of the two gates is a plain rotation, `Gate.__eq__` is `compare_gates` -/
+theorem gateEq_eq_compareGates (atol : ℝ) (g1 g2 : Gate ℝ)
+    (h : (∀ q ax an ph, g1 ≠ .bsr q ax an ph) ∨ (∀ q ax an ph, g2 ≠ .bsr q ax an ph)) :
+    gateEq atol g1 g2 = compareGates atol g1 g2 := by
+  cases g1 with
+  | bsr q1 a1 n1 p1 =>
+    cases g2 with
+    | bsr q2 a2 n2 p2 =>
+      rcases h with h | h
+      · exact absurd rfl (h q1 a1 n1 p1)
+      · exact absurd rfl (h q2 a2 n2 p2)
+    | matrix m ops => rfl
+    | ctrl c g => rfl
+  | matrix m ops => rfl
+  | ctrl c g => rfl
+
+/-- **The tolerance version is asymmetric only through the relative term.**  If `equivPhase atol a b` accepts
+    with phase `z = a_l/b_l`, then `b` is close to `z⁻¹·a` with the *same* absolute error scaled by `1/|z|`:
+    `|b_k − z⁻¹ a_k| ≤ (atol + 1e-5·|z b_k|)/|z|`; the reversed test would ask for
+    `|b_k − w a_k| ≤ atol + 1e-5·|w a_k|` with its own `w = b_l'/a_l'`, so it can differ from the forward
+    verdict only within the `1e-5·|·|` band and the choice of the pivot entry. -/
+theorem equivPhase_reverse_bound (atol : ℝ) (hatol : 0 < atol) (a b : Mat ℝ) (h : equivPhase atol a b = true) :
+    ∃ z : ℂ, z ≠ 0 ∧ ∀ k, k < a.n * a.n →
+      ‖b.flat k - z⁻¹ * a.flat k‖ ≤ (atol + 1e-5 * ‖z * b.flat k‖) / ‖z‖ := by
+  obtain ⟨z, hz, -, -, -, H⟩ := equivPhase_sound atol hatol a b h
+  refine ⟨z, hz, ?_⟩
+  intro k hk
+  have hzn : 0 < ‖z‖ := norm_pos_iff.mpr hz
+  have : b.flat k - z⁻¹ * a.flat k = -(z⁻¹ * (a.flat k - z * b.flat k)) := by
+    field_simp; ring
+  rw [this, norm_neg, norm_mul, norm_inv, inv_mul_eq_div]
+  exact div_le_div_of_nonneg_right (H k hk) hzn.le
+
+/-! ## Errors do not depend on the enumeration either -/
+
+/-- a single-gate local matrix fails only with `ValueError`, exactly when an operand is not listed or a matrix
+    node has the wrong size — a condition on the *set* of listed qubits -/
+theorem localMatrix_single_error (idx : List Int) (g : Gate ℝ)
+    (h : ¬ ((∀ q ∈ g.operands, q ∈ idx) ∧ g.dimOk)) : localMatrix idx [g] = .error .value := by
+  rw [localMatrix_single, reindexGate_eq]
+  by_cases hsub : ∀ q ∈ g.operands, q ∈ idx
+  · have hd : ¬ g.dimOk := fun hd => h ⟨hsub, hd⟩
+    rw [if_pos hsub]
+    have hreg := Gate.pos_inReg idx g hsub
+    have := expand_value (n := idx.length) (g.pos idx) (fun q hq => (hreg q hq).2)
+      (Or.inr (fun hd' => hd ((Gate.pos_dimOk idx g).mp hd')))
+    simp only [bind, Except.bind, this]
+  · rw [if_neg hsub]; rfl
+
+/-- `compareGatesWith` for two enumerations of the same qubits: an error for one is the same error for the other -/
+theorem compareGatesWith_error_perm (atol : ℝ) (idx idx' : List Int) (hperm : idx.Perm idx') (g1 g2 : Gate ℝ)
+    (e : Err) (h : compareGatesWith atol idx g1 g2 = .error e) :
+    compareGatesWith atol idx' g1 g2 = .error e := by
+  have key : ∀ g : Gate ℝ, ((∀ q ∈ g.operands, q ∈ idx) ∧ g.dimOk) ↔ ((∀ q ∈ g.operands, q ∈ idx') ∧ g.dimOk) :=
+    fun g => ⟨fun h => ⟨fun q hq => hperm.mem_iff.mp (h.1 q hq), h.2⟩,
+      fun h => ⟨fun q hq => hperm.mem_iff.mpr (h.1 q hq), h.2⟩⟩
+  by_cases h1 : (∀ q ∈ g1.operands, q ∈ idx) ∧ g1.dimOk
+  · obtain ⟨a, ha⟩ := (localMatrix_single_ok_iff idx g1).mpr h1
+    obtain ⟨a', ha'⟩ := (localMatrix_single_ok_iff idx' g1).mpr ((key g1).mp h1)
+    by_cases h2 : (∀ q ∈ g2.operands, q ∈ idx) ∧ g2.dimOk
+    · obtain ⟨b, hb⟩ := (localMatrix_single_ok_iff idx g2).mpr h2
+      rw [compareGatesWith_eq atol idx g1 g2 ha hb] at h
+      cases h
+    · have hb := localMatrix_single_error idx g2 h2
+      have hb' := localMatrix_single_error idx' g2 (fun h' => h2 ((key g2).mpr h'))
+      simp only [compareGatesWith, ha, hb, bind, Except.bind] at h
+      simp only [compareGatesWith, ha', hb', bind, Except.bind]
+      exact h
+  · have ha := localMatrix_single_error idx g1 h1
+    have ha' := localMatrix_single_error idx' g1 (fun h' => h1 ((key g1).mpr h'))
+    simp only [compareGatesWith, ha, bind, Except.bind] at h
+    simp only [compareGatesWith, ha', bind, Except.bind]
+    exact h
+
+/-! ## Non-vacuity of order independence: CNOT in two representations, union enumerated both ways -/
+
+theorem can1_X_two_reps (i j : Nat) (hi : i < 2) (hj : j < 2) :
+    (can1 ((1, 0, 0) : Vec3 ℝ) Real.pi (Real.pi / 2)).get i j
+      = (can1 ((-1, 0, 0) : Vec3 ℝ) Real.pi (-(Real.pi / 2))).get i j := by
+  apply Cx.toC_injective
+  have h1 := can1_get ((1, 0, 0) : Vec3 ℝ) Real.pi (Real.pi / 2) ⟨i, hi⟩ ⟨j, hj⟩
+  have h2 := can1_get ((-1, 0, 0) : Vec3 ℝ) Real.pi (-(Real.pi / 2)) ⟨i, hi⟩ ⟨j, hj⟩
+  simp only at h1 h2
+  rw [h1, h2, rot_X_two_reps]
+
+example (atol : ℝ) (h0 : 0 < atol) (h1 : atol ≤ 1) :
+    compareGatesWith atol [5, 9] (Gate.ctrl 5 (.bsr 9 ((1, 0, 0) : Vec3 ℝ) Real.pi (Real.pi / 2)))
+        (Gate.ctrl 5 (.bsr 9 (-1, 0, 0) Real.pi (-(Real.pi / 2)))) = .ok true ∧
+    compareGatesWith atol [9, 5] (Gate.ctrl 5 (.bsr 9 ((1, 0, 0) : Vec3 ℝ) Real.pi (Real.pi / 2)))
+        (Gate.ctrl 5 (.bsr 9 (-1, 0, 0) Real.pi (-(Real.pi / 2)))) = .ok true := by
+  obtain ⟨a, ha⟩ := (localMatrix_single_ok_iff [5, 9]
+    (Gate.ctrl 5 (.bsr 9 ((1, 0, 0) : Vec3 ℝ) Real.pi (Real.pi / 2)))).mpr
+      ⟨by simp [Gate.operands], trivial⟩
+  obtain ⟨b, hb⟩ := (localMatrix_single_ok_iff [5, 9]
+    (Gate.ctrl 5 (.bsr 9 ((-1, 0, 0) : Vec3 ℝ) Real.pi (-(Real.pi / 2))))).mpr
+      ⟨by simp [Gate.operands], trivial⟩
+  have hsa := localMatrix_single_spec _ _ a ha
+  have hsb := localMatrix_single_spec _ _ b hb
+  apply compareGatesWith_perm_exact atol h0 [5, 9] [9, 5] (by decide) (List.Perm.swap 9 5 []) _ _ ha hb
+  · refine ⟨1, norm_one, ?_⟩
+    intro i j hi hj
+    rw [one_mul, hsa.2.2 i j hi hj, hsb.2.2 i j hi hj]
+    simp only [Gate.pos, denote, ctrlOf, embed1]
+    rw [can1_X_two_reps _ _ (bitOf_lt_two _ _) (bitOf_lt_two _ _)]
+  · refine ⟨0, 0, Nat.two_pow_pos _, Nat.two_pow_pos _, ?_⟩
+    rw [hsa.2.2 0 0 (Nat.two_pow_pos _) (Nat.two_pow_pos _)]
+    simp only [Gate.pos, denote, ctrlOf, Nat.zero_testBit, Bool.false_eq_true, if_false, delta, if_true,
+      Cx.toC_one, norm_one]
+    exact h1
+
 end OSq
 
 #print axioms OSq.argmaxAbs_spec
@@ -406,3 +1086,14 @@ end OSq
 #print axioms OSq.equivPhase_sound
 #print axioms OSq.bsrEq_iff
 #print axioms OSq.rot_X_two_reps
+#print axioms OSq.reindexGate_eq
+#print axioms OSq.localMatrix_single_spec
+#print axioms OSq.denote_pos_perm
+#print axioms OSq.localMatrix_perm
+#print axioms OSq.compareGatesWith_perm_exact
+#print axioms OSq.compareGatesWith_error_perm
+#print axioms OSq.compareGates_refl_exact
+#print axioms OSq.gateEq_refl_exact
+#print axioms OSq.compareGates_symm_exact
+#print axioms OSq.equivPhase_reverse_bound
+#print axioms OSq.bsrEq_complete_exact
